@@ -118,6 +118,15 @@ theorem reimport_exact (f : Frame) (rf : RowFilter) (cf : ColFilter) (crs : Int)
       parse .exetera text = dropFilterColumn rf sel :: exportRows (fields.map (·.data)) flt :=
   readers_recover .exetera f rf cf crs sel flt hcrs hsel hflt hne
 
+example :=
+  std_parser_recovers [⟨['s'], [['i', '\r', 'j'], [' ', 'a']]⟩, ⟨['n'], [['1'], ['2']]⟩] .none (.one ['s']) 1 [['s']] none
+    (by decide) (Selects.one _ (by decide)) rfl (by decide)
+
+example :=
+  reimport_exact [⟨['s'], [[' ', 'a'], [' ', ' '], ['\r']]⟩, ⟨['b'], [['T'], ['F'], ['T']]⟩]
+    (.field (some ['b']) true true [true, false, true]) .none 2 [['s'], ['b']] (some [true, false, true])
+    (by decide) Selects.none rfl (by decide)
+
 /-- non-vacuity: leading blanks, a cell of blanks only, bare carriage returns, a lone CR, separators and quotes -/
 example :=
   readers_recover .exetera [⟨[' ', 's'], [[' ', 'a'], [' ', ' '], ['i', '\r', 'j'], ['\r'], ['x', ',', '"']]⟩,
